@@ -58,6 +58,8 @@ def generate(rng, repo_root, config="A", opts=None):
     grids = {"A": gA, "B": gB, "C": gC}
 
     nops = rng.choice([2, 3, 3, 4, 4, 5, 6, 8, 12])
+    if rng.random() < (0.08 if opts.get("tier") == "thorough" else 0.02):
+        nops = rng.choice([20, 30, 45])   # call-count dependent state (eviction after N calls, counters)
     weights = {
         "simA": rng.choice([1, 2, 3]), "simB": rng.choice([1, 2, 3]), "simC": rng.choice([1, 2, 3]),
         "rf": rng.choice([1, 2, 4]), "rfd": rng.choice([1, 2, 4]), "interp": rng.choice([1, 3, 5]),
@@ -129,7 +131,10 @@ def _weighted(rng, kinds, weights):
 def _draw_plain_op(rng, kind, k, ospec, fluids, grids):
     ideal = ospec["cls"] == "IdealReservoir"
     if kind in ("simA", "simB", "simC"):
-        return {"op": "simulate", "obj": k, "grid": kind[-1], "sched": None}
+        op = {"op": "simulate", "obj": k, "grid": kind[-1], "sched": None}
+        if not ideal and rng.random() < 0.05:
+            op["container"] = "list"      # a plain Python list is a legal time argument for these classes
+        return op
     if kind in ("sim_sched", "sim_const"):
         g = rng.choice("ABC")
         if ideal or ospec.get("fluid") is None or ospec["cls"] == "TwoPhaseReservoir":
@@ -297,6 +302,10 @@ class Runner:
         if op.get("sched") is not None:
             sched = np.array(op["sched"]["v"], dtype=float)
         how = (op.get("fault") or {}).get("how")
+        if op.get("container") == "list" and how is None:
+            t = [float(v) for v in t]
+            if sched is not None:
+                sched = [float(v) for v in sched]
         if how == "list":
             t = [float(v) for v in t]
         elif how == "none":
@@ -740,6 +749,7 @@ def scenario_for(k, batch_seed, tier, repo_root, opts=None):
 
     config = "B" if k % 3 == 2 else "A"
     rng = seeds.rng_for(ID, batch_seed, k)
+    opts = dict(opts or {}, tier=tier)
     scn = generate(rng, repo_root, config, opts)
     if tier == "thorough" and config == "B" and k % 15 == 2:
         # sweep every crash point of one operation instead of one random point
@@ -750,7 +760,7 @@ def scenario_for(k, batch_seed, tier, repo_root, opts=None):
 
 
 def generate_from_rng(rng, repo_root, tier="thorough", opts=None):
-    return generate(rng, repo_root, "B" if rng.random() < 0.4 else "A", opts)
+    return generate(rng, repo_root, "B" if rng.random() < 0.4 else "A", dict(opts or {}, tier=tier))
 
 
 class SweepResult:
